@@ -14,6 +14,7 @@ import (
 
 	"github.com/ipfs/go-cid"
 	mh "github.com/multiformats/go-multihash"
+	"github.com/rpcpool/yellowstone-faithful/indexes"
 	"github.com/rpcpool/yellowstone-faithful/indexmeta"
 	"github.com/rpcpool/yellowstone-faithful/zz_verif/cargen"
 	"github.com/rpcpool/yellowstone-faithful/zz_verif/vfh"
@@ -99,6 +100,9 @@ func vfC10expectFail(assign map[string]vfC10Src, epochOf map[string]uint64, root
 		}
 		if src.Patch == "epoch" {
 			return true, fmt.Sprintf("the epoch field of %s was replaced by %d, config says %d", role, epochOf["B"], cfgEpoch)
+		}
+		if src.Patch == "inner-kind" {
+			return true, "the offsets index inside the gsfa directory is a cid-to-offset-and-size file (same value layout, another kind)"
 		}
 		if src.Patch == "forged-epoch" {
 			// B's file whose recorded epoch was overwritten with the configured one: everything else in it still
@@ -205,6 +209,18 @@ func vfC10eval(c *vfC10Case, st map[string]int) error {
 			patched[role+"/forged-epoch"] = dst
 		}
 	}
+	// A's address-index directory whose offsets index is replaced by A's cid-to-offset-and-size index: another
+	// index kind with the same 9-byte value layout, same epoch, same root
+	{
+		dst := filepath.Join(dir, "gsfa-inner-kind")
+		if vfCopyDir(vfRoleFile(envs["A"], "gsfa"), dst) == nil {
+			if raw, err := os.ReadFile(vfRoleFile(envs["A"], "cid_to_offset_and_size")); err == nil {
+				if os.WriteFile(filepath.Join(dst, string(indexes.Kind_PubkeyToOffsetAndSize)+".index"), raw, 0o644) == nil {
+					patched["gsfa/inner-kind"] = dst
+				}
+			}
+		}
+	}
 	try := func(assign map[string]vfC10Src, label string) error {
 		n++
 		over := map[string]string{}
@@ -305,6 +321,13 @@ func vfC10eval(c *vfC10Case, st map[string]int) error {
 	for k := range patched {
 		role, field := filepath.Dir(k), filepath.Base(k)
 		m := clone()
+		if field == "inner-kind" {
+			m[role] = vfC10Src{"A", role, field}
+			subs = append(subs, m)
+			labels = append(labels, "gsfa directory of A with a cid-to-offset-and-size file as its offsets index")
+			st["field-patch:gsfa-inner-kind"]++
+			continue
+		}
 		if field == "forged-epoch" {
 			m[role] = vfC10Src{"B", role, field}
 			subs = append(subs, m)
@@ -433,7 +456,7 @@ func vfC10eval(c *vfC10Case, st map[string]int) error {
 func TestVfC10(t *testing.T) {
 	run := vfh.Begin("C10", "identity")
 	defer run.End(t)
-	run.Require("must-fail", "must-load", "foreign-car-fetches", "same-layout-foreign-car-fetches", "field-patch:epoch", "field-patch:root", "field-patch:forged-epoch")
+	run.Require("must-fail", "must-load", "foreign-car-fetches", "same-layout-foreign-car-fetches", "field-patch:epoch", "field-patch:root", "field-patch:forged-epoch", "field-patch:gsfa-inner-kind")
 	opts := cargen.DefaultOpts()
 	opts.MaxBlocks = 5
 	opts.BigFrames = false
